@@ -1152,6 +1152,13 @@ def c08_idle(stream, scen=None):
     free_since = {}
     prev = None
     single = ('handler', 'processor', 'sink')
+    always_gates = set()
+    di = 0
+    for l in scen or []:
+        if l[:2] == ['asset', 'dev']:
+            if l[2] == 'gate' and 'pred=always' in l:
+                always_gates.add(di)
+            di += 1
     for i, f in enumerate(frames(stream)):
         if f.trigger[0] == 'abort':
             return wit
@@ -1164,7 +1171,16 @@ def c08_idle(stream, scen=None):
             if g in pd and pd[g].kind in ('source', 'handler', 'processor') and pd[g].slot('out') is not None:
                 p = pd[g].slot('out')
                 dn = [int(z) for z in plist_(pd[g].f.get('dn', '-'))]
-                if dn and all(y in pd and pd[y].kind in single for y in dn):
+                # a branch may start with an (always-accepting, unblocked) gate in front of ONE single-slot device:
+                # the branch's idle time is that device's
+                def through(y):
+                    if y in pd and pd[y].kind == 'gate' and y in always_gates and pd[y].f.get('blk') == '0':
+                        z = [int(t) for t in plist_(pd[y].f.get('dn', '-'))]
+                        if len(z) == 1:
+                            return z[0]
+                    return y
+                dn = [through(y) for y in dn]
+                if dn and len(set(dn)) == len(dn) and all(y in pd and pd[y].kind in single for y in dn):
                     cand = [y for y in dn if pd[y].slot('part') is None and pd[y].slot('out') is None
                             and pd[y].f.get('blk') == '0' and pd[y].f.get('down') == '0' and y in free_since]
                     recv = [y for y in dn if y in devs and devs[y].slot('part') == p and pd[y].slot('part') is None]
